@@ -616,7 +616,7 @@ FAM = {
     "RandomSelection": dict(kind="indiv", sorting=True, params=[{}], raw=True),
     "OptimalHaploidValueSelection": dict(kind="ohv", sorting=True, params=[dict(unique=True), dict(unique=False)], tmax=1),
     "UsefulnessCriterionSelection": dict(kind="canonical", sorting=True, params=[dict(unique=True)], tmax=1, nparent=(2,)),
-    "ExpectedMaximumBreedingValueSelection": dict(kind="validity", sorting=False, params=[dict(unique=True)], tmax=1, nparent=(2,)),
+    "ExpectedMaximumBreedingValueSelection": dict(kind="embv", sorting=False, params=[dict(unique=True)], tmax=1, nparent=(2,)),
     "OptimalContributionSelection": dict(kind="canonical", sorting=False, params=[dict(unscale=True)]),
     "MeanExpectedHeterozygositySelection": dict(kind="canonical", sorting=False, params=[{}]),
     "MeanGenomicRelationshipSelection": dict(kind="canonical", sorting=False, params=[{}]),
@@ -799,11 +799,13 @@ def run_B_SO(ctx, info, n, t, ranks, vi, design, wt, opt, pi, nmi, answers=None,
         except Exception as e:
             return ("exc", e)
 
+    if F["kind"] == "embv":
+        bound = 0          # criterion comes out of a progeny simulation; its sampling answers are explored in part A only
     if answers is not None:
         ch = Chooser(answers)
         it = [(ch, run(ch))]
     else:
-        it = explore(run, bound=bound)
+        it = _guarded_explore(ctx, run, bound, P, case_base)
     for ch, res in it:
         ctx.evaluations += 1
         ctx.transitions += 1
@@ -833,6 +835,19 @@ def run_B_SO(ctx, info, n, t, ranks, vi, design, wt, opt, pi, nmi, answers=None,
         if ctx.evaluations % 1501 == 1:
             ctx.sample(dict(case, decision=numpy.asarray(cfg.xconfig_decn).tolist(), xconfig=cfg.xconfig.tolist(),
                             taxa=[str(x) for x in pop.pgmat.taxa.tolist()]))
+
+
+def _guarded_explore(ctx, run, bound, P, case_base):
+    """explore(); if the same inputs + the same scripted answers do not lead to the same sequence of draws, the
+    library's behaviour depends on something else (uninitialised memory, hash order, a hidden stream): reported as a
+    violation of its own kind instead of aborting the shard"""
+    from ..explore import ReplayDivergence
+    try:
+        yield from explore(run, bound=bound)
+    except ReplayDivergence as e:
+        ctx.violation(P + "nondeterministic-under-scripted-generator",
+                      f"re-running select() on identical inputs with identical generator answers took a different path: {e}",
+                      dict(case_base, answers=[]))
 
 
 def _exc_prefix(e, default):
@@ -879,7 +894,7 @@ def _xmap_of(P, info, cfg, soln, pop, par, p):
     xm = numpy.asarray(soln.decn_space_xmap)
     rows = [tuple(int(v) for v in r) for r in xm.tolist()]
     ref = R.xmap_ref(pop.n, p, par.get("unique", True))
-    require(len(rows) == len(set(rows)) and set(rows) == set(ref), P + "cross-map-not-upper-triangle",
+    require(len(rows) == len(set(rows)) and set(rows) == set(ref), f"{info['fam']}Problem._calc_xmap:cross-map-not-upper-triangle",
             lambda: f"decn_space_xmap {rows} expected (any order) {ref}")
     require(numpy.array_equal(numpy.asarray(cfg.xconfig_xmap), xm), "MateSelectionProtocol.select:xmap-not-handed-through", "configuration's cross map differs from the solution's")
     return rows
@@ -934,6 +949,22 @@ def oracle_B_SO(ctx, info, F, par, pop, crit, t, design, nmnp, wt, opt, cfg, mis
     elif kind == "canonical":
         _canonical(ctx, P, info, F, par, pop, crit, t, design, nmnp, wt, decn, rows, seed)
         ctx.count("B-SO:canonical-equivariance-checks")
+    elif kind == "embv":
+        # simulation-based criterion, meiosis scripted (default answers = no crossover anywhere): every doubled-haploid
+        # progeny of cross (a,b) is then one parental haplotype doubled, so the cross's expected maximum is the value of
+        # one of the (at most four) parental haplotypes — an envelope that needs no model of the mating code
+        embv = numpy.asarray(so.last_prob.embv, dtype=float)
+        ph = numpy.asarray(pop.pgmat.mat)
+        u, beta = pop.u[:, 0], float(pop.beta[0, 0])
+        require(embv.shape == (len(rows), 1), "ExpectedMaximumBreedingValueSelectionProblemMixin._calc_embv:shape", lambda: f"{embv.shape}")
+        for j, r in enumerate(rows):
+            cand = sorted({beta + ph.shape[0] * float((ph[q, x, :] * u).sum()) for x in r for q in range(ph.shape[0])})
+            require(any(close(embv[j, 0], cv) for cv in cand), "ExpectedMaximumBreedingValueSelectionProblemMixin._calc_embv:criterion-not-a-progeny-value",
+                    lambda: f"cross-map row {j} = cross {list(r)}: criterion value {embv[j, 0]!r}; with recombination-free meiosis every doubled "
+                            f"haploid of that cross has one of the values {cand} (all rows: {embv[:, 0].tolist()})")
+        val = {r: sgn * float(embv[j, 0]) for j, r in enumerate(rows)}
+        _best_units(P, enc, decn, lambda j: val[rows[int(j)]], list(range(len(rows))), ctx)
+        ctx.count("B-SO:embv-envelope-checks")
     else:
         ctx.count("B-SO:validity-only")
 
